@@ -68,3 +68,19 @@ check("C14", "model_checking",
            "transition; every schedule of the real OrderingSender with 2-3 concurrent writers within the preemption bound is "
            "executed and checked for byte order, chunk sizes and absence of deadlock (a lost wake-up is a deadlock).",
       note="Bounded: capacity <= 6 (8) units, <= 3 writers, preemption bound 3 (2 for 3 writers); SeqCst atomics.")
+
+check("C15", "model_checking",
+      "seq_join / seq_try_join_all / parallel_join polled by a waker-tracking executor; the explorer enumerates every order of "
+      "{poll the consumer, complete started task j} for n<=6 tasks, window 1..4, every single in-window dependency (task a "
+      "completes only after task b's future resolved), every error position, and <=2 source-Pending deviations. "
+      "states = executions (distinct choice sequences); transitions = choice points.",
+      [{"name": "seqjoin", "config": "A", "test": "verif::c15::run",
+        "require": {"any": {"max_distinct_completion_orders": 20, "window_checks": 100}}}],
+      assumptions=["single-threaded seq_join/local.rs only in this part (multi_thread.rs needs the multi-threading feature)"],
+      exhaustive=True, engine="E1 choice",
+      technique="stateless exhaustive choice-tree exploration (DFS by re-execution, deviation-bounded) of the real stream "
+                "combinators on a waker-tracking executor with deadlock detection",
+      text="All completion orders the window permits and all single in-window dependencies are executed against the real "
+           "SequentialFutures; order of results, exactly-once, window occupancy at every Pending return, polling of every "
+           "in-flight task and termination after the first error are checked on every execution.",
+      note="Bounds: n <= 6 (7), w <= 4 (5), one dependency edge, source Pending deviations <= 2.")
